@@ -51,8 +51,11 @@ def run(ctx):
     if p.returncode != 0 or not os.path.exists(rp):
         raise Inconclusive("sanitize driver failed: rc=%s %s" % (p.returncode, p.stderr[-2000:]))
     rep = json.load(open(rp))
-    log("E1 Sanitize: %d abstract cases %s; E2: %d concrete inputs, %d mismatches"
-        % (r.distinct, rep["by_part"], rep["concrete_inputs"], len(rep.get("mismatches") or [])))
+    log("E1 Sanitize: %d abstract cases %s; E2: %d concrete inputs (%d cause cases also through the handlers of the full stack), %d mismatches"
+        % (r.distinct, rep["by_part"], rep["concrete_inputs"], rep.get("fullstack_cases", 0), len(rep.get("mismatches") or [])))
+    ctx.coverage["fullstack_cause_cases"] = rep.get("fullstack_cases", 0)
+    if not rep.get("fullstack_cases"):
+        raise Inconclusive("no cause case went through the full stack")
     seen = set()
     for i, m in enumerate(rep.get("mismatches") or []):
         key = (m["part"], re.sub(r"[0-9]+", "N", m["what"])[:60])
